@@ -8,6 +8,58 @@ use crate::hir::SourceFileAst;
 use crate::pipeline::compile_error;
 use crate::pipeline::pipeline::{CompilationError, parse_ast_file};
 
+/// Diagnostics carry no file name and are rendered against the entry file.  Those of
+/// another file are made self-contained: the message names the file and the position in
+/// the text it refers to, and the range (meaningless in the entry file) is dropped.
+fn locate_in_file(err: CompilationError, path: &Path, src: &str) -> CompilationError {
+    use diagnostics::{Diagnostic, Diagnostics};
+
+    let relocate = |found: &Diagnostics| {
+        let mut out = Diagnostics::new();
+        for diagnostic in found.iter() {
+            let message = match diagnostic.range() {
+                Some(range) => {
+                    let offset = (u32::from(range.start()) as usize).min(src.len());
+                    let before = &src.as_bytes()[..offset];
+                    let line = before.iter().filter(|byte| **byte == b'\n').count() + 1;
+                    let line_start = before
+                        .iter()
+                        .rposition(|byte| *byte == b'\n')
+                        .map_or(0, |index| index + 1);
+                    format!(
+                        "{}:{}:{}: {}",
+                        path.display(),
+                        line,
+                        offset - line_start + 1,
+                        diagnostic.message()
+                    )
+                }
+                None => format!("{}: {}", path.display(), diagnostic.message()),
+            };
+            out.push(Diagnostic::new(
+                diagnostic.stage().clone(),
+                diagnostic.severity(),
+                message,
+            ));
+        }
+        out
+    };
+    match err {
+        CompilationError::Parser { diagnostics } => CompilationError::Parser {
+            diagnostics: relocate(&diagnostics),
+        },
+        CompilationError::Lower { diagnostics } => CompilationError::Lower {
+            diagnostics: relocate(&diagnostics),
+        },
+        CompilationError::Typer { diagnostics } => CompilationError::Typer {
+            diagnostics: relocate(&diagnostics),
+        },
+        CompilationError::Compile { diagnostics } => CompilationError::Compile {
+            diagnostics: relocate(&diagnostics),
+        },
+    }
+}
+
 pub trait PackageLayout {
     fn root_package_name(&self) -> &str;
     fn package_dir(&self, root_dir: &Path, entry_package: &str, package_name: &str) -> PathBuf;
@@ -106,7 +158,7 @@ fn load_package(
         }
         let src = fs::read_to_string(&path)
             .map_err(|err| compile_error(format!("failed to read {}: {}", path.display(), err)))?;
-        let ast = parse_ast_file(&path, &src)?;
+        let ast = parse_ast_file(&path, &src).map_err(|err| locate_in_file(err, &path, &src))?;
         if let Some(existing) = &package_name {
             if &ast.package.0 != existing {
                 return Err(compile_error(format!(
